@@ -661,3 +661,269 @@ def table_echo(ctx):
         ctx.count("table-echo")
         if got != want:
             ctx.fail("correspondence", f"C15.table-echo:{n}", witness=dict(table=n, lean=got, live=want))
+
+
+# ---------------------------------------------------------------------------------------
+# (2) boolean semiring, exhaustively
+# ---------------------------------------------------------------------------------------
+
+def bool_semiring(ctx):
+    B = BOOL_GRID
+    A3 = np.array(list(itertools.product(B, repeat=3)))          # all 8 triples, as arrays
+    a_, b_, c_ = A3[:, 0], A3[:, 1], A3[:, 2]
+    AND, OR, XOR = ops.and_, ops.or_, ops.xor
+    py = {"and_": operator.and_, "or_": operator.or_, "xor": operator.xor}
+
+    def bad(name, w, exp, got, code):
+        ctx.fail("input", f"C15.bool-semiring:{name}", witness=w, expected=jv(exp), got=jv(got),
+                 python=PRELUDE + code)
+    for a, b, c in itertools.product(B, repeat=3):
+        for form in ("scalar", "0d"):
+            cv = (lambda v: v) if form == "scalar" else np.asarray
+            x, y, z = cv(a), cv(b), cv(c)
+            w = dict(a=a, b=b, c=c, form=form)
+            ctx.count("bool-semiring:triples")
+            checks = [
+                ("and-truth", AND(x, y), a and b), ("or-truth", OR(x, y), a or b), ("xor-truth", XOR(x, y), a != b),
+                ("and-assoc", AND(AND(x, y), z), AND(x, AND(y, z))), ("or-assoc", OR(OR(x, y), z), OR(x, OR(y, z))),
+                ("xor-assoc", XOR(XOR(x, y), z), XOR(x, XOR(y, z))),
+                ("and-comm", AND(x, y), AND(y, x)), ("or-comm", OR(x, y), OR(y, x)),
+                ("distrib", AND(OR(x, y), z), OR(AND(x, z), AND(y, z))),
+                ("and-unit", AND(x, ops.UNITS[AND]), a), ("or-unit", OR(x, ops.UNITS[OR]), a),
+                ("xor-unit", XOR(x, ops.UNITS[XOR]), a), ("xor-self-inverse", XOR(XOR(x, y), y), a),
+                ("or-absorbing", OR(x, True), True), ("and-absorbing", AND(x, False), False),
+            ]
+            for name, got, exp in checks:
+                if not same(got, exp):
+                    bad(name, w, exp, got,
+                        f"a, b, c = {a}, {b}, {c}\nprint('see witness: boolean law {name}')\n"
+                        f"FAILS = not (same(ops.and_(a, ops.UNITS[ops.and_]), a) and same(ops.or_(a, ops.UNITS[ops.or_]), a)"
+                        f" and same(ops.and_(a, b), a and b) and same(ops.or_(a, b), a or b) and same(ops.xor(a, b), a != b))\n")
+                    return
+            ctx.case(nontrivial_key=("bool", a, b, c, form))
+    # elementwise on the array of all triples
+    for name, got, exp in [
+        ("and-array", AND(a_, b_), np.logical_and(a_, b_)), ("or-array", OR(a_, b_), np.logical_or(a_, b_)),
+        ("xor-array", XOR(a_, b_), np.logical_xor(a_, b_)),
+        ("distrib-array", AND(OR(a_, b_), c_), OR(AND(a_, c_), AND(b_, c_))),
+        ("and-unit-array", AND(a_, ops.UNITS[AND]), a_), ("or-unit-array", OR(a_, ops.UNITS[OR]), a_),
+    ]:
+        ctx.count("bool-semiring:array-laws")
+        if not np.array_equal(np.asarray(got), np.asarray(exp)):
+            bad(name, dict(a=jv(a_), b=jv(b_), c=jv(c_)), exp, got,
+                "a = np.array([False, True])\n"
+                "FAILS = not (np.array_equal(ops.and_(a, ops.UNITS[ops.and_]), a) and np.array_equal(ops.or_(a, ops.UNITS[ops.or_]), a))\n")
+            return
+
+
+# ---------------------------------------------------------------------------------------
+# (3) agreement grid: scalar vs 0-d vs numpy scalar vs number×array vs elementwise
+# ---------------------------------------------------------------------------------------
+
+EDGE = [0.0, -0.0, 1.0, -1.0, INF, -INF, FMAX, -FMAX, FMIN, -FMIN, SUB, -SUB]
+SHAPES = [(), (1,), (3,), (2, 1), (3, 2)]
+FLOAT_BIN = ["add", "sub", "mul", "truediv", "floordiv", "mod", "pow", "max", "min", "eq", "ne", "lt", "le",
+             "gt", "ge", "logaddexp", "safesub", "safediv"]
+FLOAT_UN = ["abs", "neg", "pos", "exp", "log", "log1p", "sqrt", "reciprocal", "sigmoid", "tanh", "atanh",
+            "lgamma"]
+INT_BIN = ["add", "sub", "mul", "truediv", "floordiv", "mod", "max", "min", "and_", "or_", "xor", "lshift",
+           "rshift", "eq", "ne", "lt", "le", "gt", "ge"]
+INT_UN = ["abs", "neg", "pos", "invert"]
+BOOL_BIN = ["and_", "or_", "xor", "eq", "ne", "max", "min"]
+# transcendental (or, for safediv, "multiply by the rounded reciprocal"): 1e-12 relative; others exact
+TRANSC = {"exp", "log", "log1p", "sigmoid", "tanh", "atanh", "lgamma", "logaddexp", "pow", "safediv"}
+
+
+def random_floats(rng, n):
+    out = []
+    for _ in range(n):
+        k = rng.random()
+        if k < 0.25:
+            v = rng.choice([0.5, 2.0, 3.0, -2.5, 0.25, 7.0, -0.75, 10.0])
+        elif k < 0.5:
+            v = rng.gauss(0, 1) * 10 ** rng.randint(-3, 3)
+        elif k < 0.65:
+            v = rng.choice([-1, 1]) * rng.uniform(1, 9) * 10 ** rng.randint(290, 307)
+        elif k < 0.8:
+            v = rng.choice([-1, 1]) * rng.uniform(1, 9) * 10 ** rng.randint(-307, -290)
+        elif k < 0.9:
+            v = rng.choice([-1, 1]) * rng.uniform(600, 760)
+        else:
+            v = rng.choice([-1, 1]) * rng.uniform(1, 9) * 10 ** rng.randint(-323, -309)   # subnormal
+        out.append(float(v))
+    return out
+
+
+def kf_region(name, a, b=None):
+    """operand region of the open finding KF-safesub-inf (kept out of the clean stream): the
+    unstabilised scalar / (array, Number) variants differ from the clipped array variants exactly
+    where the clip acts."""
+    if name == "safesub":
+        return b == -INF
+    if name == "safediv":
+        return abs(b) < FMIN
+    if name == "reciprocal":
+        return abs(a) < FMIN
+    return False
+
+
+def in_domain(name, a, b, s):
+    """is (a, b) with scalar result `s` inside the op's domain for the agreement claim?"""
+    if is_exc(s):
+        return False, "scalar-declines"
+    if isinstance(s, complex):
+        return False, "complex"
+    if isinstance(s, float) and s != s:
+        return False, "scalar-nan"
+    if name == "log" and not (a >= 0):
+        return False, "log-of-negative"
+    if name == "pow" and isinstance(a, float) and a < 0 and not (isinstance(b, float) and b.is_integer()):
+        return False, "pow-neg-base"
+    if name in ("safesub", "safediv", "reciprocal") and kf_region(name, a, b):
+        return False, "kf-region"
+    if name == "safediv" and (math.isinf(a) and math.isinf(b)):
+        return False, "inf/inf"
+    return True, ""
+
+
+def agree_python(name, args, form):
+    a = ", ".join(hx(x) for x in args)
+    if form == "0d":
+        v = ", ".join(f"np.asarray({hx(x)})" for x in args)
+    elif form == "npscalar":
+        v = ", ".join(f"np.float64({hx(x)})" if isinstance(x, float) else f"np.asarray({hx(x)})[()]" for x in args)
+    elif form == "num-arr":
+        v = f"{hx(args[0])}, np.asarray({hx(args[1])})"
+    elif form == "arr-num":
+        v = f"np.asarray({hx(args[0])}), {hx(args[1])}"
+    else:
+        v = ", ".join(f"np.full({form!r}, {hx(x)})" for x in args)
+    tol = "1e-12" if name in TRANSC else "0.0"
+    return PRELUDE + (f"s = call(ops.{name}, {a})\nv = call(ops.{name}, {v})\nprint('scalar', s, ' other', v)\n"
+                      f"FAILS = not isinstance(s, tuple) and not isinstance(v, tuple) and "
+                      f"not all(same(s, x, {tol}) for x in np.asarray(v).ravel().tolist())\n")
+
+
+def check_agree(ctx, name, args, kind):
+    """one operand tuple: scalar reference vs every array form.  Returns True if evaluated."""
+    op = get_op(name)
+    s = call(op, *args)
+    ok, why = in_domain(name, args[0], args[1] if len(args) > 1 else None, s) if kind == "float" else \
+        ((not is_exc(s)) and not isinstance(s, complex), "scalar-declines")
+    if not ok:
+        ctx.count(f"agree:outside-domain:{why}")
+        return False
+    tol = 1e-12 if name in TRANSC else 0.0
+    forms = [("0d", tuple(np.asarray(x) for x in args))]
+    if kind == "float":
+        forms.append(("npscalar", tuple(np.float64(x) for x in args)))
+    if len(args) == 2:
+        forms.append(("num-arr", (args[0], np.asarray(args[1]))))
+        forms.append(("arr-num", (np.asarray(args[0]), args[1])))
+    for form, vargs in forms:
+        if name in ("safesub", "safediv") and form == "arr-num":
+            pass   # same default body as the scalar variant: compared like any other form
+        v = call(op, *vargs)
+        if is_exc(v):
+            ctx.count(f"agree:array-declines:{name}")
+            continue
+        ctx.count("agree:comparisons")
+        if not same(s, v, tol):
+            ctx.fail("input", f"C15.agree:{name}:{form}", witness=dict(op=name, operands=jv(args), form=form, kind=kind),
+                     expected=jv(s), got=jv(v), python=agree_python(name, args, form))
+            return True
+    return True
+
+
+def check_elementwise(ctx, name, pairs, shape, kind):
+    """arrays of `shape` filled with operand tuples; every element must equal the scalar result"""
+    op = get_op(name)
+    n = int(np.prod(shape)) if shape else 1
+    pairs = pairs[:n]
+    ar = len(pairs[0])
+    dt = {"float": np.float64, "int": np.int64, "bool": np.bool_}[kind]
+    arrs = [np.array([p[i] for p in pairs], dtype=dt).reshape(shape) for i in range(ar)]
+    v = call(op, *arrs)
+    if is_exc(v):
+        ctx.count(f"agree:array-declines:{name}")
+        return
+    v = np.asarray(v)
+    if v.shape != tuple(shape):
+        ctx.fail("input", f"C15.agree:{name}:shape", witness=dict(op=name, shape=list(shape), operands=jv(pairs)),
+                 expected=list(shape), got=list(v.shape),
+                 python=PRELUDE + f"v = ops.{name}(" + ", ".join(f"np.zeros({tuple(shape)!r})+1" for _ in range(ar)) +
+                 f")\nFAILS = np.asarray(v).shape != {tuple(shape)!r}\n")
+        return
+    tol = 1e-12 if name in TRANSC else 0.0
+    for p, got in zip(pairs, v.ravel().tolist()):
+        s = call(op, *p)
+        ok, why = in_domain(name, p[0], p[1] if ar > 1 else None, s) if kind == "float" else \
+            ((not is_exc(s)) and not isinstance(s, complex), "")
+        if not ok:
+            continue
+        ctx.count("agree:elementwise-cells")
+        if not same(s, got, tol):
+            ctx.fail("input", f"C15.agree:{name}:elementwise", witness=dict(op=name, operands=jv(p), shape=list(shape), kind=kind),
+                     expected=jv(s), got=jv(got), python=agree_python(name, p, tuple(shape)))
+            return
+    # broadcasting a python number against the array (binary ops): number×array both orders
+    if ar == 2 and kind == "float":
+        x0 = pairs[0][0]
+        vb = call(op, x0, arrs[1])
+        if not is_exc(vb):
+            for p, got in zip(pairs, np.asarray(vb).ravel().tolist()):
+                s = call(op, x0, p[1])
+                ok, _ = in_domain(name, x0, p[1], s)
+                if ok:
+                    ctx.count("agree:broadcast-cells")
+                    if not same(s, got, tol):
+                        ctx.fail("input", f"C15.agree:{name}:num-arr-broadcast",
+                                 witness=dict(op=name, operands=jv((x0, p[1])), shape=list(shape)),
+                                 expected=jv(s), got=jv(got), python=agree_python(name, (x0, p[1]), "num-arr"))
+                        return
+
+
+def agreement_grid(ctx, volume=1):
+    rng = ctx.rng
+    nrand = (6 if ctx.tier == "quick" else 14) * volume
+    fl = EDGE + random_floats(rng, nrand)
+    ints = [0, 1, -1, 2, 3, -3, 7, 62, -64] + [rng.randint(-1000, 1000) for _ in range(3 * volume)]
+    pairs = list(itertools.product(fl, repeat=2))        # both operand orders by construction
+    for name in FLOAT_BIN:
+        for p in pairs:
+            if check_agree(ctx, name, p, "float"):
+                nt = any(v in EDGE[4:] or v == 0 for v in p)
+                ctx.case(sample=dict(op=name, operands=jv(p)) if rng.random() < 0.0005 else None,
+                         nontrivial_key=(name, p[0].hex(), p[1].hex()) if nt or True else None)
+        for shape in SHAPES:
+            for _ in range(2 * volume):
+                check_elementwise(ctx, name, [rng.choice(pairs) for _ in range(6)], shape, "float")
+    for name in FLOAT_UN:
+        for a in fl:
+            if check_agree(ctx, name, (a,), "float"):
+                ctx.case(nontrivial_key=(name, a.hex()))
+        for shape in SHAPES:
+            check_elementwise(ctx, name, [(rng.choice(fl),) for _ in range(6)], shape, "float")
+    ipairs = list(itertools.product(ints, repeat=2))
+    for name in INT_BIN:
+        for p in ipairs:
+            if name in ("lshift", "rshift") and not (0 <= p[1] < 40 and abs(p[0]) < 2 ** 20):
+                ctx.count("agree:outside-domain:shift-range")
+                continue
+            if check_agree(ctx, name, p, "int"):
+                ctx.case(nontrivial_key=(name, p))
+        for shape in SHAPES[1:]:
+            ps = [p for p in (rng.choice(ipairs) for _ in range(12))
+                  if name not in ("lshift", "rshift") or (0 <= p[1] < 40 and abs(p[0]) < 2 ** 20)]
+            if len(ps) >= 6:
+                check_elementwise(ctx, name, ps, shape, "int")
+    for name in INT_UN:
+        for a in ints:
+            if check_agree(ctx, name, (a,), "int"):
+                ctx.case(nontrivial_key=(name, a))
+    bpairs = list(itertools.product(BOOL_GRID, repeat=2))
+    for name in BOOL_BIN:
+        for p in bpairs:
+            if check_agree(ctx, name, p, "bool"):
+                ctx.case(nontrivial_key=(name, p))
+        check_elementwise(ctx, name, bpairs + bpairs[:2], (3, 2), "bool")
